@@ -123,7 +123,7 @@ inductive JMembers : List Tok → Prop
       JMembers (.sc (.str s) :: .colon :: ts ++ .comma :: us)
 end
 
-theorem refToks_valid (n : Nat) : JVal (refToks n) := by
+theorem refToks_valid (n : Int) : JVal (refToks n) := by
   have := JVal.obj (JMembers.one (s := "__pref") (JVal.sc (.int n)))
   simpa [refToks] using this
 
